@@ -9,6 +9,7 @@
 
 #include <kernel/runtime.hpp>
 #include <kernel/analytic/common.hpp>
+#include <kernel/analytic/lambda_function.hpp>
 #include <kernel/assembly/common_functionals.hpp>
 #include <kernel/assembly/common_operators.hpp>
 #include <kernel/assembly/domain_assembler.hpp>
@@ -431,7 +432,7 @@ namespace
       for(int j = 0; j < njobs; ++j)
       {
         rec.job = j;
-        int kind = int(sim::cfg_weighted(K(("job" + std::to_string(j)).c_str()), {4, 2, 2, 3, 3, 2, 2, 1, 1, 1, 1}));
+        int kind = int(sim::cfg_weighted(K(("job" + std::to_string(j)).c_str()), {4, 2, 2, 3, 3, 2, 2, 1, 1, 1, 1, 1}));
         bool fail_job = false;
         bool scat = true;
         long nsel = long(selected.size());
@@ -570,6 +571,26 @@ namespace
             compare("cell error integral (total)", a, b, 2, 1e-11);
             if(res.vec.size() != rres.vec.size()) sim::fail("RESULT", "cell error vector has a different length than the single-threaded one");
             compare("cell error integral (per cell)", res.vec.elements(), rres.vec.elements(), res.vec.size(), 1e-12);
+          }
+          break;
+        case 11: // lambda function without derivative formulae: its gradient comes from Richardson extrapolation inside the
+                 // library's evaluator (documented as safe: no lambda object and no evaluator is shared between threads)
+          {
+            scat = false;
+            auto run_lambda = [&](auto func)
+            {
+              typedef decltype(func) FuncType;
+              typedef Assembly::AnalyticFunctionIntegralJob<double, FuncType, TrafoType, 1> JobType;
+              JobType job(func, trafo, "auto-degree:3"), rjob(func, trafo, "auto-degree:3");
+              Wrap<JobType> w(job);
+              da.assemble(w);
+              REC = &ref_rec; Wrap<JobType> rw(rjob); ref.assemble_master(rw); REC = &rec;
+              double a[3] = {double(job.result().value), double(job.result().norm_h0_sqr), double(job.result().norm_h1_sqr)};
+              double b[3] = {double(rjob.result().value), double(rjob.result().norm_h0_sqr), double(rjob.result().norm_h1_sqr)};
+              compare("lambda function integral (extrapolated derivatives)", a, b, 3, 1e-9);
+            };
+            if constexpr(dim == 2) run_lambda(Analytic::create_lambda_function_scalar_2d([](double x, double y) { sim::yield("lambda"); return 1.0 + x * x + 2.0 * x * y + 3.0 * y * y; }));
+            else run_lambda(Analytic::create_lambda_function_scalar_3d([](double x, double y, double z) { sim::yield("lambda"); return 1.0 + x * x + 2.0 * y * z + 3.0 * z * z; }));
           }
           break;
         case 6: // failing job: a task throws on a seeded cell or in its constructor -> everybody must still terminate
